@@ -5,7 +5,9 @@ Property theorems.  Models: `Earverif/Model/Zone.lean`, `Earverif/Model/ChannelL
 `Earverif/Model/CartLock.lean` (`renderCartLock`, `renderPolarLock`: the two paths of
 `GainCalc.render` for a point object with zone exclusion and channel lock, in the order the
 real code uses); helper lemmas: `Earverif/Proofs/C13*.lean`;
-per-layout tables regenerated from /repo on every run: `Earverif/Gen/C13_Tables.lean`.
+per-layout tables regenerated from /repo on every run: `Earverif/Gen/C13_Tables.lean` (+ C05's region tables and
+C01's `LayoutTable`s for sections 12 / 13, where the polar `pan` is the concrete C05 panner / the concrete
+`PolarExtentHandler.handle(·, 0, 0, 0)` of C01 around it).
 
 Wording: "zones full" means *full on the polar path; Cartesian: exactly characterised plus the
 recorded counter-example* (`cart_reset_characterised`, `cart_zone_not_silent_witness`).
@@ -20,6 +22,8 @@ import Earverif.Proofs.C13CartLock
 import Earverif.Proofs.C13Polar
 import Earverif.Proofs.C13LockReal
 import Earverif.Proofs.C13PolarLock
+import Earverif.Proofs.C13Extent
+import Earverif.Gen.C01_Tables
 import Earverif.Proofs.C13ZoneSpec
 import Earverif.Proofs.C13AngleRange
 
@@ -1142,7 +1146,8 @@ the downmix of the virtual loudspeakers keeps `e_k`), and section 12 plugs it in
 (`pspHandle_exact_at_norm`, `polar_lock_one_speaker_layouts`, `polar_lock_one_speaker_layouts_tables`).  This
 theorem is kept for a table `l` outside the ten nominal ones.  What it does NOT model: the real `pan` is
 `extent_pan(position, 0, 0, 0)` = `PolarExtentHandler.handle` AROUND the point-source panner
-(`GainCalc.polarPointPan`), here replaced by the bare point-source panner; and the real float code leaves
+(`GainCalc.polarPointPan`), here replaced by the bare point-source panner (section 13,
+`polar_lock_one_speaker_layouts_extent`, has the real `pan`); and the real float code leaves
 ~1e-17 residues on other loudspeakers at these positions (search tolerance 1e-9). -/
 theorem polar_lock_one_speaker_layouts_partial (l : PointSource.RawLayout)
     (fuel : Nat) (spks : List (Spk ℝ)) (norm : List (P3 ℝ)) (prio : List Nat)
@@ -1538,7 +1543,8 @@ real handlers are built with), so that no hypothesis about `prio` / `groups` is 
 of channel `k` is `[k]`" come from the table obligation `tables_groups_ok`, `L.prio` has one entry per loudspeaker
 (`prio.getD` in `NearestByRule` never reads the default).  `0 ≤ diffuse ≤ 1` is the range of the ADM parameter; outside
 it `Real.sqrt` of a negative number is 0 whereas numpy gives NaN.  Still substituted: `pan` is the bare point-source
-panner `GainCalc.pspHandle l`, not `PolarExtentHandler.handle` around it (`GainCalc.polarPointPan`). -/
+panner `GainCalc.pspHandle l`, not `PolarExtentHandler.handle` around it (`GainCalc.polarPointPan`); section 13
+(`polar_lock_one_speaker_layouts_extent`) removes the substitution. -/
 theorem polar_lock_one_speaker_layouts_tables (i : Nat) (L : Gen.C13.Layout) (l : PointSource.RawLayout)
     (hL : Gen.C13.layouts[i]? = some L) (hl : Gen.C05.layouts[i]? = some l)
     (fuel : Nat) (spks : List (Spk ℝ)) (zones : List (Zone ℝ)) (p : P3 ℝ)
@@ -1573,5 +1579,181 @@ theorem polar_lock_one_speaker_layouts_tables (i : Nat) (L : Gen.C13.Layout) (l 
 /-- non-vacuity: the hypotheses of `polar_lock_one_speaker_layouts_tables` are those of the `example` above (0+5+0, which
 uses `L.prio`, `L.groups` already) plus `0 ≤ diffuse ≤ 1`, e.g. `diffuse = 1/2` -/
 example : (0 : ℝ) ≤ 1 / 2 ∧ (1 / 2 : ℝ) ≤ 1 := by norm_num
+
+/-! ## 13. Polar lock on the regenerated tables with the REAL `pan`: `PolarExtentHandler.handle(position, 0, 0, 0)`
+
+`GainCalc.render` calls `extent_pan(position, 0, 0, 0)`, i.e. `PolarExtentHandler.handle` with zero extent
+(`GainCalc.polarPointPan`), not the bare point-source panner of section 12.  The position it receives after a lock is
+`layout.norm_positions[k]`, binary64 coordinates whose exact squared length is `1 ± 1e-16` — for 27 of the 96
+loudspeakers of the ten layouts it is BELOW 1 (e.g. U+045: `1 − 5.2e-17`).  Over ℝ on those exact values
+`extent_mod(0, d) > 0` for `d < 1`, `ammount_spread` is tiny but non-zero, and `calc_pv_spread` returns
+`sqrt(1 − ammount_spread) · e_k`: exactly one loudspeaker (exact zeros elsewhere) with the gain scaled by
+`s = sqrt(1 − ammount_spread) ∈ [sqrt(1 − 1e-10), 1]`.  (In binary64 `np.linalg.norm` of every one of the 96 positions
+is exactly `1.0`, `extent_mod` is exactly `0.0` and the real code returns `s = 1`: evaluated on every run, op `rple`.) -/
+
+/-- every `layout.norm_positions[k]` has squared length ≥ 1 − 1e-12 (exact rationals) -/
+def normNearUnit (L : Gen.C13.Layout) : Bool :=
+  L.norm.all fun r =>
+    let q := p3Of r
+    decide ((1 : Rat) - 1 / 1000000000000 ≤ q.x * q.x + q.y * q.y + q.z * q.z)
+
+/-- Table obligation: the binary64 unit vectors of the ten layouts are within 1e-12 of unit length. -/
+theorem tables_norm_near_unit : Gen.C13.layouts.all normNearUnit = true := by decide +kernel
+
+/-- Table obligation: the C13 tables and the C01 tables (`LayoutTable`, from which `GainCalc.LayoutEnv` is built) list
+the same layouts in the same order with the same number of (non-LFE) channels. -/
+theorem c01_tables_match :
+    (Gen.C13.layouts.length == Gen.C01.layouts.length &&
+      (Gen.C13.layouts.zip Gen.C01.layouts).all fun LT => LT.1.name == LT.2.name && LT.1.n == LT.2.n) = true := by
+  decide +kernel
+
+/-- on the ten tables every `norm_positions[k]` is in the point-only class of `PolarExtentHandler.handle` -/
+theorem inPointClass_at_norm (L : Gen.C13.Layout) (hL : L ∈ Gen.C13.layouts) (k : Nat) (c : P3 ℝ)
+    (hc : ((L.norm.map p3Of).map castP3)[k]? = some c) : GainCalc.InPointClass (vec3 c) := by
+  have ht := tables_norm_near_unit
+  rw [List.all_eq_true] at ht
+  have h1 := ht L hL
+  simp only [normNearUnit, List.all_eq_true, decide_eq_true_eq] at h1
+  have hk : k < L.norm.length := by
+    by_contra hge
+    rw [List.getElem?_eq_none (by simp; omega)] at hc
+    exact absurd hc (by simp)
+  have h2 := h1 _ (List.getElem_mem hk)
+  rw [List.getElem?_map, List.getElem?_map, List.getElem?_eq_getElem hk] at hc
+  simp only [Option.map_some, Option.some.injEq] at hc
+  subst hc
+  apply GainCalc.inPointClass_of_near
+  set q := p3Of L.norm[k] with hq
+  have h3 : ((1 : ℝ) - 1 / 1000000000000) ≤ (q.x : ℝ) * q.x + (q.y : ℝ) * q.y + (q.z : ℝ) * q.z := by
+    have : (((1 : Rat) - 1 / 1000000000000 : Rat) : ℝ) ≤ ((q.x * q.x + q.y * q.y + q.z * q.z : Rat) : ℝ) :=
+      Rat.cast_le.mpr h2
+    push_cast at this
+    exact this
+  show (1 : ℝ) - 1 / 1000000000000 ≤ Real.sqrt ((q.x : ℝ) * q.x + (q.y : ℝ) * q.y + (q.z : ℝ) * q.z)
+  rw [Real.le_sqrt (by norm_num) (by linarith)]
+  nlinarith
+
+/-- **Polar channel lock renders exactly one loudspeaker, the nearest by the rule — with the real `pan`
+(`PolarExtentHandler.handle(·, 0, 0, 0)` around the C05 panner), on the ten regenerated layouts, no panner
+hypothesis.**  `L`, `l`, `T`: the C13, C05 and C01 tables of the same layout (number `i` of the three lists;
+`norm_tables_match`, `c01_tables_match`); the environment of `polarPointPan` is `T.env fuel'`.  Conclusion: the direct
+and diffuse gains are EXACTLY `e_k` times `s · gain` times the direct/diffuse split — exact zeros on every other
+loudspeaker — where `s = sqrt(1 − ammount_spread)` of the locked `norm_positions[k]`, `1 − 1e-10 ≤ s² ≤ 1`, and `s = 1`
+whenever the exact length of `norm_positions[k]` is ≥ 1 (69 of the 96 loudspeakers; for the others `s` is not 1 over ℝ
+because the binary64 unit vector is shorter than 1; see the section header). -/
+theorem polar_lock_one_speaker_layouts_extent (i : Nat) (L : Gen.C13.Layout) (l : PointSource.RawLayout)
+    (T : GainCalc.LayoutTable)
+    (hL : Gen.C13.layouts[i]? = some L) (hl : Gen.C05.layouts[i]? = some l) (hT : Gen.C01.layouts[i]? = some T)
+    (fuel fuel' : Nat) (spks : List (Spk ℝ)) (zones : List (Zone ℝ)) (p : P3 ℝ)
+    (lock : Option (Option ℝ)) (gain diffuse : ℝ) (hd0 : 0 ≤ diffuse) (hd1 : diffuse ≤ 1)
+    (zmask : List Bool) (k : Nat) (d f : List ℝ)
+    (h : renderPolarLock fuel spks ((L.norm.map p3Of).map castP3) L.prio L.groups zones
+      (fun q => GainCalc.polarPointPan (T.env fuel' : GainCalc.LayoutEnv ℝ) l (vec3 q)) p lock gain diffuse =
+        some (zmask, .locked k, (d, f)))
+    (hne : isExcl zmask k = false) :
+    ∃ s : ℝ, 0 ≤ s ∧ s ≤ 1 ∧ 1 - 1 / 10000000000 ≤ s * s ∧
+    (∀ c, ((L.norm.map p3Of).map castP3)[k]? = some c → 1 ≤ c.x * c.x + c.y * c.y + c.z * c.z → s = 1) ∧
+    L.prio.length = ((L.norm.map p3Of).map castP3).length ∧
+    k < ((L.norm.map p3Of).map castP3).length ∧
+    d = (unitR ((L.norm.map p3Of).map castP3).length k).map (fun v => v * (s * gain) * Real.sqrt (1 - diffuse)) ∧
+    f = (unitR ((L.norm.map p3Of).map castP3).length k).map (fun v => v * (s * gain) * Real.sqrt diffuse) ∧
+    ∃ maxD, lock = some maxD ∧
+      NearestByRule false ((L.norm.map p3Of).map castP3) L.prio
+        (List.replicate ((L.norm.map p3Of).map castP3).length false) p maxD k := by
+  have hmem : L ∈ Gen.C13.layouts := List.mem_of_getElem? hL
+  have hmatch : normMatches L l = true := by
+    have := norm_tables_match
+    simp only [Bool.and_eq_true, beq_iff_eq, List.all_eq_true] at this
+    apply this.2 (L, l)
+    rw [List.mem_iff_getElem?]
+    exact ⟨i, by rw [List.getElem?_zip_eq_some]; exact ⟨hL, hl⟩⟩
+  have hTn : T.n = L.n := by
+    have := c01_tables_match
+    simp only [Bool.and_eq_true, beq_iff_eq, List.all_eq_true] at this
+    have h2 := this.2 (L, T) (by
+      rw [List.mem_iff_getElem?]
+      exact ⟨i, by rw [List.getElem?_zip_eq_some]; exact ⟨hL, hT⟩⟩)
+    exact h2.2.symm
+  have ht2 := tables_lock_ok
+  rw [List.all_eq_true] at ht2
+  have h2 := ht2 L hmem
+  simp only [Bool.and_eq_true, beq_iff_eq] at h2
+  have hn : ((L.norm.map p3Of).map castP3).length = L.n := by simp [h2.1.2]
+  -- take the render apart
+  obtain ⟨hlk, q, g, hq, hg, hz, ho⟩ := renderPolarLock_some fuel spks _ L.prio L.groups zones _ p lock gain diffuse
+    zmask _ (d, f) h
+  have hqk : ((L.norm.map p3Of).map castP3)[k]? = some q := hq
+  have hpsp := pspHandle_exact_at_norm L l (List.mem_of_getElem? hl) hmatch k q hqk
+  obtain ⟨s, hs0, hs1, hs2, hs3, hpan⟩ := GainCalc.polarPointPan_at_unit (T.env fuel' : GainCalc.LayoutEnv ℝ) l (vec3 q)
+    ((L.norm.map p3Of).map castP3).length k (by rw [hn]; exact hTn) (inPointClass_at_norm L hmem k q hqk) hpsp
+  have hg' : g = (unitR ((L.norm.map p3Of).map castP3).length k).map (· * s) := by
+    have : GainCalc.polarPointPan (T.env fuel' : GainCalc.LayoutEnv ℝ) l (vec3 q) = some g := hg
+    rw [hpan] at this
+    exact (Option.some.inj this).symm
+  rw [hg', renderPolar_scale _ _ _ _ s gain diffuse hs0 (unitR_length _ k)
+    (fun v hv => by rcases unitR_mem _ k v hv with h | h <;> rw [h] <;> norm_num)] at ho
+  -- the same block through the bare panner with the gain `s · gain`
+  have h0 : renderPolarLock fuel spks ((L.norm.map p3Of).map castP3) L.prio L.groups zones
+      (fun q => GainCalc.pspHandle l (vec3 q)) p lock (s * gain) diffuse = some (zmask, .locked k, (d, f)) := by
+    unfold renderPolarLock
+    simp only [Option.bind_eq_some_iff, Option.some.injEq, Prod.mk.injEq]
+    exact ⟨q, by rw [← hlk]; exact hq, _, hpsp, zmask, hz, (d, f), ho, rfl, hlk.symm, rfl⟩
+  obtain ⟨r1, r2, r3, r4, r5⟩ := polar_lock_one_speaker_layouts_tables i L l hL hl fuel spks zones p lock (s * gain)
+    diffuse hd0 hd1 zmask k d f h0 hne
+  refine ⟨s, hs0, hs1, hs2, ?_, r1, r2, r3, r4, r5⟩
+  intro c hc hc1
+  rw [hqk] at hc
+  obtain rfl := Option.some.inj hc
+  apply hs3
+  show (1 : ℝ) ≤ Real.sqrt (q.x * q.x + q.y * q.y + q.z * q.z)
+  rw [Real.le_sqrt (by norm_num) (by linarith)]
+  linarith
+
+/-- non-vacuity of `polar_lock_one_speaker_layouts_extent`: 0+5+0 (tables number 1), no zones, object at M+000 = (0, 1, 0)
+(of unit length exactly, so `s = 1` there), lock without maxDistance: the composed polar path with `polarPointPan` is
+defined and locks to M+000 -/
+example (gain diffuse : ℝ) :
+    ∃ d f, renderPolarLock 4 (List.replicate 5 (⟨0, 0, 0, 0, 0⟩ : Spk ℝ))
+        ((Gen.C13.L_0_5_0.norm.map p3Of).map castP3) Gen.C13.L_0_5_0.prio Gen.C13.L_0_5_0.groups []
+        (fun q => GainCalc.polarPointPan (Gen.C01.l_0_5_0.env 4 : GainCalc.LayoutEnv ℝ) Gen.C05.L1 (vec3 q)) ⟨0, 1, 0⟩
+        (some none) gain diffuse = some (List.replicate 5 false, .locked 2, (d, f)) := by
+  have hlen : ((Gen.C13.L_0_5_0.norm.map p3Of).map castP3).length = 5 := by simp [Gen.C13.L_0_5_0]
+  have h2 : (Gen.C13.L_0_5_0.norm.map p3Of)[2]'(by decide) = ⟨0, 1, 0⟩ := by decide +kernel
+  have hl := lock_at_speaker_table false (Gen.C13.L_0_5_0.norm.map p3Of) (by decide +kernel) Gen.C13.L_0_5_0.prio
+    (List.replicate 5 false) 2 (by decide) (isExcl_replicate_false 5 2)
+  have hc : castP3 ⟨0, 1, 0⟩ = (⟨0, 1, 0⟩ : P3 ℝ) := by simp [castP3]
+  rw [h2, hc] at hl
+  have hmatch : normMatches Gen.C13.L_0_5_0 Gen.C05.L1 = true := by decide +kernel
+  have hq : ((Gen.C13.L_0_5_0.norm.map p3Of).map castP3)[2]? = some (⟨0, 1, 0⟩ : P3 ℝ) := by
+    rw [List.getElem?_map, List.getElem?_eq_getElem (by decide), h2]; simp [castP3]
+  have hpsp := pspHandle_exact_at_norm _ _ (by simp [Gen.C05.layouts]) hmatch 2 _ hq
+  have hcls : GainCalc.InPointClass (vec3 (⟨0, 1, 0⟩ : P3 ℝ)) :=
+    GainCalc.inPointClass_of_far _ (by simp [vec3, GainCalc.norm3])
+  obtain ⟨s, hs0, _, _, _, hpan⟩ := GainCalc.polarPointPan_at_unit (Gen.C01.l_0_5_0.env 4 : GainCalc.LayoutEnv ℝ)
+    Gen.C05.L1 (vec3 ⟨0, 1, 0⟩) ((Gen.C13.L_0_5_0.norm.map p3Of).map castP3).length 2 (by rw [hlen]; rfl) hcls hpsp
+  have hg : groupsOK ((Gen.C13.L_0_5_0.norm.map p3Of).map castP3).length Gen.C13.L_0_5_0.groups = true := by
+    rw [hlen]; decide +kernel
+  -- through the bare panner with gain `s · gain` the path is defined (`polar_lock_defined`); rescale
+  obtain ⟨d, f, h⟩ := polar_lock_defined 4 (List.replicate 5 (⟨0, 0, 0, 0, 0⟩ : Spk ℝ)) _ Gen.C13.L_0_5_0.prio
+    Gen.C13.L_0_5_0.groups [] (fun q => GainCalc.pspHandle Gen.C05.L1 (vec3 q)) ⟨0, 1, 0⟩ (some none) (s * gain) diffuse
+    (List.replicate 5 false) 2 hg (by rw [hlen]; exact hl)
+    (fun c hc' => pspHandle_exact_at_norm _ _ (by simp [Gen.C05.layouts]) hmatch 2 c hc') rfl
+    (by rw [hlen, List.length_replicate])
+  refine ⟨d, f, ?_⟩
+  obtain ⟨hlk, q, g, hq', hg', hz, ho⟩ := renderPolarLock_some _ _ _ _ _ _ _ _ _ _ _ _ _ _ h
+  have hqe : q = ⟨0, 1, 0⟩ := by
+    have : ((Gen.C13.L_0_5_0.norm.map p3Of).map castP3)[2]? = some q := hq'
+    rw [hq] at this
+    exact (Option.some.inj this).symm
+  subst hqe
+  have hge : g = unitR ((Gen.C13.L_0_5_0.norm.map p3Of).map castP3).length 2 := by
+    have : GainCalc.pspHandle Gen.C05.L1 (vec3 ⟨0, 1, 0⟩) = some g := hg'
+    rw [hpsp] at this
+    exact (Option.some.inj this).symm
+  rw [hge, ← renderPolar_scale _ _ _ _ s gain diffuse hs0 (unitR_length _ 2)
+    (fun v hv => by rcases unitR_mem _ 2 v hv with h | h <;> rw [h] <;> norm_num)] at ho
+  unfold renderPolarLock
+  simp only [Option.bind_eq_some_iff, Option.some.injEq, Prod.mk.injEq]
+  exact ⟨⟨0, 1, 0⟩, by rw [← hlk]; exact hq', _, hpan, _, hz, (d, f), ho, rfl, hlk.symm, rfl⟩
 
 end Earverif.C13
